@@ -35,6 +35,11 @@ class MolEditAdapter:
         pass
 
     def _new(self, tag):
+        # an identity that was added before and deleted is re-added as the SAME Atom object (it still carries a
+        # stale parent reference to the molecule it was deleted from) - what a user does who moves an atom around
+        old = self.obj.get(tag)
+        if old is not None and tag in IDX and not self._live(tag):
+            return old
         a = self.ml.Atom(ELEM[tag], label=LABEL[tag])
         self.keep.append(a)
         self.tag[id(a)] = tag
